@@ -38,6 +38,9 @@ pub fn run(ctx: &mut Ctx, _args: &Args) {
     ];
 
     // (i) optimiser
+    if ctx.mine(0) {
+        wl_iup::run_designed(ctx);
+    }
     wl_iup::run_exhaustive(ctx);
     wl_iup::run_random(ctx);
 
